@@ -220,8 +220,22 @@ def check_diagram_level(ctx):
     shape.match(ctx, "R14.3", CAT + ".Sum.subs:unit", unit, "Sum([], self.dom, self.cod)", {}, mod=CAT, node=fn, sig="sum-unit")
     shape.match(ctx, "R14.3", CAT + ".Sum.subs:terms", ret_expr(fn.body[-1:]), "self.upgrade(sum([f.subs(*args) for f in self.terms], unit))", {}, mod=CAT, node=fn, sig="sum-terms")
     fn = m.func("discopy.tensor.Tensor.subs")
-    shape.match(ctx, "R14.3", "discopy.tensor.Tensor.subs", ret_expr(fn.body), "self.map(lambda x: getattr(x, 'subs', lambda y, *_: y)(*args))", {}, mod="discopy.tensor", node=fn,
-                sig="tensor-subs", required="entry-wise substitution (so evaluation commutes with substitution on arrays of expressions)")
+    r = ret_expr(fn.body)
+    ok_shape = isinstance(r, ast.Call) and ast.unparse(r.func) == "self.map" and len(r.args) == 1 and isinstance(r.args[0], ast.Lambda) and len(r.args[0].args.args) == 1
+    ctx.need(ok_shape, "Tensor.subs is not `self.map(lambda x: ...)`")
+    lam = r.args[0]
+    xv = lam.args.args[0].arg
+    inner = lam.body
+    okc = isinstance(inner, ast.Call) and isinstance(inner.func, ast.Call) and ast.unparse(inner.func.func) == "getattr" and len(inner.func.args) == 3 and ast.unparse(inner.func.args[0]) == xv and \
+        ast.unparse(inner.func.args[1]) == "'subs'" and [ast.unparse(x) for x in inner.args] == ["*" + (fn.args.vararg.arg if fn.args.vararg else "args")]
+    ctx.ob("R14.3", "discopy.tensor.Tensor.subs", okc, found=ast.unparse(r), required="entry-wise: each entry's own subs is called with the arguments (so evaluation commutes with substitution on arrays of expressions)",
+           mod="discopy.tensor", node=fn, sig="tensor-subs")
+    if okc:
+        fb = inner.func.args[2]
+        own = {x.arg for x in fb.args.args} | ({fb.args.vararg.arg} if isinstance(fb, ast.Lambda) and fb.args.vararg else set()) if isinstance(fb, ast.Lambda) else set()
+        okf = isinstance(fb, ast.Lambda) and isinstance(fb.body, ast.Name) and fb.body.id == xv and xv not in own and (fb.args.vararg is not None or len(fb.args.args) >= 2)
+        ctx.ob("R14.3", "discopy.tensor.Tensor.subs:fallback", okf, found=ast.unparse(fb), required="an entry without symbols (a plain number) is left as it is: the fallback returns the entry `%s`, whatever it is called with" % xv,
+               mod="discopy.tensor", node=fb, sig="tensor-subs-fallback")
     fn = m.func("discopy.tensor.Tensor.map")
     shape.match(ctx, "R14.3", "discopy.tensor.Tensor.map", ret_expr(fn.body), "Tensor(self.dom, self.cod, list(map(func, self.array.flatten())))", {}, mod="discopy.tensor", node=fn,
                 sig="tensor-map")
